@@ -39,6 +39,28 @@ Definition tb_copy (t : table) : table := t.
 (* self._fast_merge(others) (pinned by AST hash): Merge.fast_merge of [self] + others *)
 Definition tb_fast_merge (self : table) (others : list table) : table := fast_merge (self :: others).
 
-(* the statements of merge after the translated prefix (pinned by AST hash) *)
-Definition merge_tail (self other : table) (sm om : mode) (fs fo : option mdf) : result table :=
-  merge_general self other sm om fs fo.
+(* ---- the general path ---- *)
+(* self._union_id_order(a, b) / self._intersect_id_order(a, b): the definitions tools/py2v
+   regenerates from the same file (Gen/HelpersGen.v, DESIGN 3.1 row T5); the receiver is not used *)
+Definition tb_union_id_order (self : table) (a b : list Z) : zdict nat := union_id_order a b.
+Definition tb_intersect_id_order (self : table) (a b : list Z) : zdict nat := intersect_id_order a b.
+
+(* sorted(d.items(), key=itemgetter(1)): stable sort of the (id, index) pairs by index *)
+Fixpoint ins_by_value (p : Z * nat) (l : list (Z * nat)) : list (Z * nat) :=
+  match l with
+  | [] => [p]
+  | q :: r => if Nat.leb (snd p) (snd q) then p :: l else q :: ins_by_value p r
+  end.
+Definition items_by_value (d : zdict nat) : zdict nat := fold_right ins_by_value [] d.
+Definition is_empty {A} (l : list A) : bool := match l with [] => true | _ => false end.
+
+(* the statements of merge after the empty-result refusals (pinned by AST hash): the index
+   look-ups, the two metadata loops, the vector loop and the constructor call, with the meaning
+   Model/Merge.v gives them (merged_row, merged_md).  The (id, index) pairs are numbered
+   0, 1, 2, ... in list order (proved for the pairs the translated prefix hands over), so
+   "place at index" is "place at position". *)
+Definition merge_build (self other : table) (sord oord : zdict nat) (fs fo : option mdf) : result table :=
+  let sids' := map fst sord in
+  let oids' := map fst oord in
+  ROk (mkT oids' sids' (map (merged_row self other sids') oids')
+           (merged_md (f_or_drop fo) Obs self other oids') (merged_md (f_or_drop fs) Samp self other sids') NOTYPE).
